@@ -126,3 +126,126 @@ def check_blank_flags(prog: Program, res: Result, rule: str) -> None:
         else:
             res.fail(rule, file=bn.file, line=m.node.lineno if m else bn.node.lineno, qualname=f"BlockNode.{nm}", construct=f"{nm} suppression guard", message="blank-block suppression is not guarded by both the environment flag and the block's blank flag", what=what)
     # nodes with child blocks that do not set blank explicitly inherit True: their own render must then only render children - covered above
+    _check_composite_blank(prog, res, rule)
+    _check_suppression_readers(prog, res, rule)
+
+
+RENDER_CALLS = {"render", "render_async"}
+
+
+def _rendered_child_attrs(prog: Program, ci: ClassInfo) -> dict[str, int]:
+    """self attributes whose value (or whose elements) a render method of ci renders as child nodes."""
+    out: dict[str, int] = {}
+    for name in ("render_to_output", "render_to_output_async"):
+        m = ci.methods.get(name)
+        if m is None:
+            continue
+        # loop / comprehension variables bound from `self.A`
+        alias: dict[str, str] = {}
+        for n in ast.walk(m.node):
+            it = tgt = None
+            if isinstance(n, (ast.For, ast.AsyncFor)):
+                it, tgt = n.iter, n.target
+            elif isinstance(n, ast.comprehension):
+                it, tgt = n.iter, n.target
+            elif isinstance(n, ast.Assign) and len(n.targets) == 1:
+                it, tgt = n.value, n.targets[0]
+            if it is None or tgt is None:
+                continue
+            src = next((x.attr for x in ast.walk(it) if is_self_attr(x)), None)
+            if src is None:
+                src = next((alias[x.id] for x in ast.walk(it) if isinstance(x, ast.Name) and x.id in alias), None)
+            if src is not None:
+                for t in ast.walk(tgt):
+                    if isinstance(t, ast.Name):
+                        alias[t.id] = src
+        for c in ast.walk(m.node):
+            if isinstance(c, ast.Call) and isinstance(c.func, ast.Attribute) and c.func.attr in RENDER_CALLS and len(c.args) == 2:
+                recv = c.func.value
+                a = None
+                if is_self_attr(recv):
+                    a = recv.attr
+                elif isinstance(recv, ast.Attribute) and is_self_attr(recv.value):
+                    a = recv.value.attr
+                else:
+                    root = next((x for x in ast.walk(recv) if isinstance(x, ast.Name)), None)
+                    if root is not None and root.id in alias:
+                        a = alias[root.id]
+                if a is not None:
+                    out[a] = c.lineno
+    return out
+
+
+def _check_composite_blank(prog: Program, res: Result, rule: str) -> None:
+    """A node that renders child blocks and computes its own blank flag must take every rendered child into account."""
+    node_base = prog.cls("liquid2.ast.Node")
+    n = 0
+    for ci in prog.subclasses(node_base, strict=True):
+        init = ci.methods.get("__init__")
+        if init is None:
+            continue
+        asg = [a for a in ast.walk(init.node) if isinstance(a, ast.Assign) and any(is_self_attr(t, "blank") for t in a.targets)]
+        if not asg:
+            continue
+        v = asg[-1].value
+        if isinstance(v, ast.Constant):
+            continue
+        rendered = _rendered_child_attrs(prog, ci)
+        if not rendered:
+            continue
+        n += 1
+        # names standing for each attribute inside __init__: the attribute itself and the parameter stored into it
+        stands: dict[str, set[str]] = {a: {a} for a in rendered}
+        for s in ast.walk(init.node):
+            if isinstance(s, ast.Assign):
+                for t in s.targets:
+                    if is_self_attr(t) and t.attr in rendered:
+                        stands[t.attr] |= {x.id for x in ast.walk(s.value) if isinstance(x, ast.Name)}
+        mentioned = {x.id for x in ast.walk(v) if isinstance(x, ast.Name)} | {x.attr for x in ast.walk(v) if isinstance(x, ast.Attribute)}
+        missing = sorted(a for a in rendered if not (stands[a] & mentioned))
+        site = f"{ci.file}:{asg[-1].lineno} {ci.name}.__init__"
+        what = f"{ci.name}.blank accounts for every child it renders ({', '.join(sorted(rendered))})"
+        if not missing:
+            res.ok(rule, site, what, f"self.blank = {norm(v, 90)}")
+        else:
+            res.fail(
+                rule,
+                file=ci.file,
+                line=asg[-1].lineno,
+                qualname=f"{ci.name}.__init__",
+                construct=f"{ci.name}.blank ignores {missing}",
+                message=f"{ci.name} renders self.{missing[0]} but `self.blank = {norm(v, 70)}` does not consult it: when the other children are whitespace-only the node counts as blank and an enclosing block suppresses the text/output of self.{missing[0]}",
+                what=what,
+            )
+    res.floor(rule, "composite nodes computing their own blank flag", n, 4)
+
+
+def _check_suppression_readers(prog: Program, res: Result, rule: str) -> None:
+    """Blank suppression is decided in one place (BlockNode.render_to_output*, into a NullIO): no other render path skips
+    work because something is blank, so state changes (assign/capture/break) inside blank blocks still happen."""
+    n = 0
+    for mod in prog.modules.values():
+        for a in ast.walk(mod.tree):
+            if isinstance(a, ast.Attribute) and isinstance(a.ctx, ast.Load) and a.attr == "suppress_blank_control_flow_blocks":
+                n += 1
+                fi = prog.enclosing_function(mod, a)
+                q = fi.qualname if fi else "<module>"
+                what = f"`{norm(a)}` read only by BlockNode.render_to_output[_async]"
+                if fi is not None and fi.cls is not None and fi.cls.full == "liquid2.ast.BlockNode" and fi.name in ("render_to_output", "render_to_output_async"):
+                    res.ok(rule, f"{mod.relpath}:{a.lineno} {q}", what, "the guarded NullIO render")
+                else:
+                    res.fail(rule, file=mod.relpath, line=a.lineno, qualname=q, construct=f"{norm(a)} read in {q}", message=f"{q} consults the blank-suppression switch itself: anything it skips on that basis (iterations, assigns, captures, breaks inside a blank block) is lost together with the whitespace", what=what)
+    res.floor(rule, "reads of suppress_blank_control_flow_blocks", n, 2)
+    # render methods must not branch on a blank flag either (the flag is for BlockNode's own use)
+    node_base = prog.cls("liquid2.ast.Node")
+    for ci in prog.subclasses(node_base, strict=True):
+        if ci.full == "liquid2.ast.BlockNode":
+            continue
+        for nm in ("render_to_output", "render_to_output_async"):
+            m = ci.methods.get(nm)
+            if m is None:
+                continue
+            for t in ast.walk(m.node):
+                test = t.test if isinstance(t, (ast.If, ast.IfExp, ast.While)) else None
+                if test is not None and any(isinstance(x, ast.Attribute) and x.attr == "blank" for x in ast.walk(test)):
+                    res.fail(rule, file=ci.file, line=t.lineno, qualname=f"{ci.name}.{nm}", construct=f"{ci.name}.{nm} branches on `{norm(test, 60)}`", message=f"{ci.name}.{nm} decides what to execute from a blank flag: side effects of a blank block are skipped, not only its whitespace", what=f"{ci.name}.{nm} does not branch on .blank")
